@@ -131,3 +131,13 @@ _p(
     components=[comp.lean(["S_pos", "one_add_tau_sq", "telescope", "S_eq_sum", "contrib2_eq", "emb2_eq", "sum_contrib", "sum_attn", "sum_mlp", "attn_mlp_ratio_sq", "mean_vs_embedding_sq"])],
     explanation="The real closure _tau(index, layers) is executed symbolically for ALL depths and both parities: tau>0 and tau^2*S(index) == a(index)^2 with S(i+1) == S(i)+a(i)^2, S(0) == layers/2 (z3, exact reals); Lean proves by induction that these step facts give squared contributions summing to 1, equal attention / equal MLP contributions, the requested attn:MLP ratio and multiplier, for every depth. TransformerStack.__init__ is executed with a symbolic number of layers and a generic index i: layer i gets rule(2i, 2*layers) and rule(2i+1, 2*layers), and TransformerLayer.forward uses the attention tau in the first split/add pair and the MLP tau in the second.",
 )
+
+_p(
+    "C09",
+    level="proof",
+    technique="contract-based deductive verification: a representation invariant on unit_scaling.Parameter objects proved preserved by every repo function a history step dispatches to (induction over the history)",
+    trusted_base=SMT + NN + ["assumed contracts of copy.deepcopy / pickle / torch.save dispatch, nn.Parameter.__deepcopy__, torch._utils._get_obj_state / _rebuild_parameter_with_state, Module.to/half/float/load_state_dict/requires_grad_ acting in place (validated at run time: group copy)"],
+    assumptions=[A7, "copy.deepcopy(x) calls the INSTANCE attribute x.__deepcopy__(memo); pickle and torch.save call the instance attribute __reduce_ex__ and unpickling applies the returned callable to the returned arguments; deepcopy(module) deep-copies each parameter through its own __deepcopy__; dtype conversions, load_state_dict and requires_grad_ mutate the same parameter object (A3, validated)", "library transforms = one deepcopy(module) (apply_transform, C17) followed by re-homing of the same parameter objects"],
+    components=[comp.validators(["copy"])],
+    explanation="tagged_full(p) (tags present AND both instance hooks installed and bound to p itself) is proved to hold for Parameter(...), for the result of the deepcopy hook and for the result of the reduce_ex hook followed by the rebuild function, with identical tags, values, shape/dtype and requires_grad, the source left intact; since every history step is one of these (or acts in place), any history of any length preserves the tags, and the optimizer rules read only (mup_type, mup_scaling_depth, shape) (C10) so the learning-rate scale is unchanged.",
+)
